@@ -138,6 +138,9 @@ void profile_make_cfg(const std::string &prof, uint64_t seed, RunCfg &c) {
     }
     if (r.chance(0.5)) c.sock_create_cb = 1 + (int)r.below(2);
     if (r.chance(0.3)) c.sock_config_cb = 1 + (int)r.below(2);
+    // descriptor numbers handed out again as soon as they are free (what a real kernel does): a stale pointer or a stale number
+    // then aliases a live connection. Only in this profile: the C10/C05 oracles identify sockets by number.
+    if (r.chance(0.4)) c.knobs["fd_reuse"] = 1;
   }
   profile_cfg_more(prof, seed, c, r);
   if (c.faults == 0) { c.sock_create_cb = c.sock_create_cb ? 1 : 0; c.sock_config_cb = c.sock_config_cb ? 1 : 0; }
